@@ -305,6 +305,13 @@ class TermBuilder:
                     if isinstance(st, ast.Assign) and isinstance(st.value, ast.Constant) \
                             and self.ana.prog.modules[mod].global_assign_count.get(nm, 0) == 1:
                         return tm.as_term(st.value.value) if not isinstance(st.value.value, float) else tm.const(Fraction(repr(st.value.value)))
+                    if isinstance(st, ast.Assign) and isinstance(st.value, ast.Tuple) and self.ana.prog.modules[mod].global_assign_count.get(nm, 0) == 1 \
+                            and not self._rebound_by_global_stmt(mod, nm) and all(self._constant_expression(x) for x in st.value.elts):
+                        # _COLUMN = (-1, 1): a module-level tuple of numbers is that tuple
+                        try:
+                            return Tup([self.term(x, at) for x in st.value.elts])
+                        except Exception:
+                            pass
                     if isinstance(st, ast.Assign) and self.ana.prog.modules[mod].global_assign_count.get(nm, 0) == 1 \
                             and not self._rebound_by_global_stmt(mod, nm) and self._constant_expression(st.value):
                         # LOG_2PI = math.log(2.0 * math.pi): a module constant defined by a closed arithmetic expression
@@ -365,7 +372,13 @@ class TermBuilder:
         lag = self._lagged(name, at, defs)
         if lag is not None:
             return lag
-        return Sym(f"{name}@phi{at.id}")
+        # an unknown mix of several definitions.  Two program points see the *same* unknown when the same definitions reach both and
+        # no loop that separates them redefines the name (reading `state` in the header and in the body of a loop that never assigns
+        # it); the symbol is therefore named after the reaching definitions and the enclosing loops that contain one of them
+        import zlib
+        loops = [l for l in self.cfg.enclosing_loops(at) if any(l in self.cfg.enclosing_loops(d) for d in defs)]
+        sig = ",".join(map(str, sorted(d.id for d in defs))) + "|" + ",".join(str(getattr(l, "lineno", 0)) for l in loops)
+        return Sym(f"{name}@phi{zlib.crc32(sig.encode()) % 100000}")
 
     def _constant_expression(self, e: ast.expr) -> bool:
         """Numbers, math.pi / numpy.pi, arithmetic, and math.* / numpy.* functions of such."""
@@ -1171,6 +1184,8 @@ class TermBuilder:
                 return tm.transpose(recv)
             if c.target == "copy" and not args:
                 return App("numpy.copy", (recv,))
+            if c.target == "reshape" and len(args) == 1 and isinstance(args[0], Tup) and not kw:
+                args = list(args[0].elems)          # x.reshape((a, b)) is x.reshape(a, b)
             if c.target in NDARRAY_METHODS:
                 # x.sum(), x.mean(axis=0), x.dot(y): the ndarray method is the numpy function applied to the receiver (no other
                 # type in this code base has methods of these names: lists, dicts and the containers do not)
@@ -1394,7 +1409,7 @@ class TermBuilder:
                     base = self.term(t.value, n)
                     sl = t.slice
                     elts = sl.elts if isinstance(sl, ast.Tuple) else [sl]
-                    idx = tuple(self._slice_term(x, n) for x in elts)
+                    idx = tm.canon_idx(tuple(self._slice_term(x, n) for x in elts))
                     val = self.term(val_e, n)
                     out.append(Store(n, st, t, base, _root_name(t.value) if isinstance(t.value, ast.Name) else None,
                                      idx, None, val, self.guard_term(n), loops, aug, rngs, lvars))
